@@ -1190,6 +1190,6 @@ func init() {
 		Rule: "all commit DAGs on n commits (n<=4 quick, n<=5 thorough) x all non-empty root subsets x all linear extensions of the listing; all tag forests on m tags (m<=4 / 5) x all non-empty root subsets x all m! listing orders; max_history_depth and max_tag_depth compared with the longest-chain oracle; real git deciding the order: every DAG on n<=3 (quick) / n<=4 (thorough) commits x every assignment of distinct timestamps (children older than parents included) through the real binary with real git. non-trivial = scenario with more than one admissible order", Assumptions: asm}
 	Registry["C04"] = &Check{Level: "model_checking", Worker: c04Worker, QuickBudget: 150 * time.Second, ThoroughBudget: 20 * time.Minute,
 		Rule: "all tree DAGs with <=3 generated trees over the tier's name/leaf alphabet x all listing permutations of the trees; other trees reached from a lightweight tag or an annotated tag of a tree; wide trees (255/256/257/600 subdirectories); special-name single shapes; seven checkout dimensions compared separately with the recursive-expansion oracle. non-trivial = scenario with more than one listing order", Assumptions: asm}
-	Registry["C09"] = &Check{Level: "model_checking", Worker: c09Worker, QuickBudget: 150 * time.Second, ThoroughBudget: 10 * time.Minute,
+	Registry["C09"] = &Check{Level: "model_checking", Worker: c09Worker, QuickBudget: 150 * time.Second, ThoroughBudget: 30 * time.Minute,
 		Rule: "for each mixed repository (trees x commit shapes x tag configurations): every listing permutation of trees, tags, blobs and every linear extension of commits (capped per scenario, cap reported) and every permutation of the reference listing; all numeric keys must equal the first order's and the oracle's; root-order family (every subset of aliasing references x every permutation of the reference listing x 3 ROOT lists); explicit-state search at the Graph API with full state keys (states = delivered sets, every path into a set must give the same canonical key of the entire private state; tree DAGs with 3 (4) generated trees, a 10 (12)-tree shared DAG, wide trees of 255/256/257/300 entries, all tag forests on 5 (6) tags); storage layouts with real git (loose, pack-refs, repack -ad, gc, gc --aggressive --prune=now, repack -f --depth=1) on every 37th (quick) / 5th (thorough) mixed repository: byte-identical JSON equal to the oracle", Assumptions: asm}
 }
